@@ -536,7 +536,7 @@ func subRace() mon.Sub {
 		Name: "unforced-race", Required: true,
 		N: func(t string) int {
 			if t == "thorough" {
-				return 4000
+				return 20000
 			}
 			return 400
 		},
